@@ -1,10 +1,11 @@
 """C09 — server-level property decided on event histories (see simcheck.py / simgen.py)."""
-import simcheck
+import simcheck, realcheck
 
 
 def run(chk):
     chk.prove("Properties_C09")
     simcheck.run_sim(chk, flavour=FLAVOUR)
+    realcheck.run(chk)
 
 
 replay = simcheck.replay
